@@ -37,12 +37,32 @@
     T4  no_base_in_chunk_gives_empty_location an interval without a base in the chunk gets the empty location
         base_in_chunk_gives_location          … and only then
 
+    T5  chunk_built_chromosome_codons_unchanged
+                                              QUERY ORDER: `chromosome_codon_locations`, `num_codons` and
+                                              `scan_chromosome_codon_locations(lo, hi)` of a chunk-built CDS are
+                                              functions of the constructor arguments alone — the same for every chunk
+                                              window and strand, hence independent of anything asked about the chunk
+                                              view before (the model has no cache; that the real object answers the same
+                                              in both query orders is the spec-decided `order` line of every run)
+    T6  lift_of_chunk_relative_location_is_the_chromosome_location
+                                              ALTERNATIVE CONSTRUCTORS: chunk-down then lift-up is the identity, block for
+                                              block, on an interval inside the chunk whose blocks do not touch
+        from_chunk_relative_location_is_ordinary_construction
+                                              `from_chunk_relative_location` of FeatureInterval (plus-strand chunks: F-C07e),
+                                              CDSInterval and TranscriptInterval (chunks of BOTH strands) hands the
+                                              ordinary constructor the description the location was written from
+        from_dict_on_a_chunk_is_ordinary_construction, liftover_to_a_chunk_is_ordinary_construction
+                                              `from_dict(o.to_dict(), parent_or_seq_chunk_parent=chunk)` and
+                                              `liftover_to_parent_or_seq_chunk_parent(chunk)` of an object built on any
+                                              parent = the ordinary construction on the chunk (all six classes)
+
   Resting on the correspondence run (stated at the end, not proved): the sequence clauses (`get_spliced_sequence`,
   `extract_sequence`, `translate` of the chunk-built twin), `chunk_relative_frames`, the pre-order composition of T1/T2
   over collection trees, and the identifier flags of collections (F-C07a).
 -/
 import BioCantor.Proofs.ChunkMain
 import BioCantor.Proofs.ChunkWindow
+import BioCantor.Proofs.ChunkAlt
 import BioCantor.Props.C05
 namespace BioCantor.Props.C07
 open BioCantor BioCantor.Spec BioCantor.Spec.Chunk BioCantor.Model BioCantor.Model.Chunk BioCantor.Proofs
@@ -180,6 +200,63 @@ theorem chunk_window_codons_single_exon_frame0 (k : ChunkCDS) (h : WFChunk k) (e
       (ans (scanChunkRelativeCodonLocations k (lo : Int) (hi : Int))) = true :=
   chunkWindowCodons_single k h e hone hf lo hi hlh hseq hsome
 
+
+/-! ### T5 — query order: the chromosome-level codon answers do not depend on the chunk (nor on the chunk view) -/
+
+/-- **T5** two CDSs built from the same arguments on ANY two chunks (any window, either strand — in particular a
+    chunk holding every codon and one holding a few) answer `chromosome_codon_locations`, `num_codons` and
+    `scan_chromosome_codon_locations(lo, hi)` identically: these observables read the chromosome-level members only.
+    Together with T1 (`cds_chromosome_answers_unchanged`) they are the whole-chromosome twin's answers; there is no
+    state through which an earlier question about the chunk view could reach them. -/
+theorem chunk_built_chromosome_codons_unchanged (x : CdsD) (ch ch' : Model.Chunk.Chunk) (k k' : ChunkCDS)
+    (hk : mkChunkCDS x ch = .ok k) (hk' : mkChunkCDS x ch' = .ok k') :
+    chromosomeCodonLocations k = chromosomeCodonLocations k' ∧ numCodonsChunk k = numCodonsChunk k' ∧
+      ∀ lo hi : Int, scanChromosomeCodonLocationsChunk k lo hi = scanChromosomeCodonLocationsChunk k' lo hi := by
+  have h := mkChunkCDS_base x ch ch' k k' hk hk'
+  unfold chromosomeCodonLocations numCodonsChunk scanChromosomeCodonLocationsChunk
+  rw [h]
+  exact ⟨rfl, rfl, fun _ _ => rfl⟩
+
+/-! ### T6 — alternative constructors end in the ordinary construction on the same chunk -/
+
+-- `ChunkOk ch`: the chunk holds a base and lies on the plus or the minus strand.  `AltBlocks bs ch`: at least one
+-- block, each of positive length, strictly separated (`Sep`: no two touch), all inside the chunk window.
+-- `AltDesc d ch` (Proofs/ChunkAlt.lean): `d` is a feature / CDS / transcript on a directional strand whose exon and CDS
+-- blocks are `AltBlocks`; a coding transcript's CDS part is accepted by the CDS constructor; a FEATURE needs a chunk
+-- on the plus strand (F-C07e, witness below).
+
+/-- **T6 (core)** chunk-down then lift-up is the identity: `initialize_location` of blocks `W` on a chunk (either
+    strand) gives a non-empty chunk-relative location on the strand relative to the chunk's, and
+    `lift_over_to_first_ancestor_of_type("chromosome")` of it gives back exactly the blocks `W` on strand `st`. -/
+theorem lift_of_chunk_relative_location_is_the_chromosome_location (W : List Blk) (st : Strand)
+    (ch : Model.Chunk.Chunk) (hch : ChunkOk ch) (hst : st = .plus ∨ st = .minus) (hW : AltBlocks W ch) :
+    ∃ crl m, initializeLocation W st (.chunk ch) = .ok crl ∧ liftToChromosome ch crl = .ok m ∧
+      locStrand crl = .ok (strandRelativeTo st ch.wst) ∧ locBlocks m = W ∧ locStrand m = .ok st :=
+  handed_roundtrip W st ch hch hst hW
+
+/-- **T6** `FeatureInterval` / `CDSInterval` / `TranscriptInterval.from_chunk_relative_location`, handed the
+    chunk-relative location(s) of a description `d` (for a coding transcript: with the CDS object the CDS constructor
+    of the same name builds): the nodes, the description the ordinary constructor finally receives and the chunk are
+    those of the ordinary construction of `d` on that chunk.  Chunks of BOTH strands for CDS and transcript. -/
+theorem from_chunk_relative_location_is_ordinary_construction (d : Desc) (letters : List Char)
+    (ch before other : Model.Chunk.Chunk) (hch : ChunkOk ch) (hd : AltDesc d ch) :
+    viaNodes .fcrl d letters ch before other = (do let b ← buildNodes d (.chunk ch); pure (b, d, ch)) := by
+  simp only [viaNodes, descFromChunkRelative_id d ch hch hd, bind, Except.bind]
+
+/-- **T6** `Cls.from_dict(o.to_dict(), parent_or_seq_chunk_parent=p)` where `o` was built from `d` on ANY parent
+    `src` (whole chromosome, another chunk): the ordinary construction of `d` on `p`.  All six classes; an
+    AnnotationCollection with explicit bounds (inferred bounds are a property of the parent it was built on). -/
+theorem from_dict_on_a_chunk_is_ordinary_construction (d : Desc) (src p : Par)
+    (hsrc : ∃ a, buildNodes d src = .ok a) (hb : ∀ ac, d = .ac ac → ac.bounds ≠ none) :
+    viaDict d src p = buildNodes d p :=
+  viaDict_eq d src p hsrc hb
+
+/-- **T6** `o.liftover_to_parent_or_seq_chunk_parent(p)` -/
+theorem liftover_to_a_chunk_is_ordinary_construction (d : Desc) (src p : Par)
+    (hsrc : ∃ a, buildNodes d src = .ok a) (hb : ∀ ac, d = .ac ac → ac.bounds ≠ none) :
+    viaLift d src p = buildNodes d p :=
+  viaDict_eq d src p hsrc hb
+
 /-! ### non-vacuity: concrete inputs satisfying the hypotheses
 
   (`List.mergeSort` does not reduce in the kernel, so facts about sorted multi-block lists are shown through the
@@ -250,6 +327,55 @@ example : (ans (mkWholeCDS ⟨.minus, [((2, 7), 1)]⟩ "ACGTACGT".toList)).isSom
     (ans (mkCdsNode ⟨.minus, [((2, 7), 1)]⟩ (.chunk ⟨(3, 8), .plus, "TACGT".toList⟩) 1)).isSome = true := by
   decide +kernel
 
+
+/-! ### T5 / T6: the hypotheses are satisfiable, and the guards are needed -/
+
+-- two chunks of one CDS: [4,6) on the plus strand holds no codon, [1,8) on the minus strand holds both
+example : (ans (mkChunkCDS ⟨.plus, [((1, 8), 1)]⟩ ⟨(4, 6), .plus, "AC".toList⟩)).isSome = true ∧
+    (ans (mkChunkCDS ⟨.plus, [((1, 8), 1)]⟩ ⟨(1, 8), .minus, "ACGTACG".toList⟩)).isSome = true := by decide +kernel
+
+/-- a minus-strand chunk [2, 12) and a two-exon minus-strand CDS [3,5) [7,10) inside it -/
+def altChunk : Model.Chunk.Chunk := ⟨(2, 12), .minus, "ACGTACGTAC".toList⟩
+example : ChunkOk altChunk := ⟨Or.inr rfl, by decide⟩
+theorem altBlocks_example : AltBlocks [(3, 5), (7, 10)] altChunk :=
+  ⟨by simp, by simp [Chunk.Sep], by
+    intro b hb
+    simp only [List.mem_cons, List.not_mem_nil, or_false] at hb
+    rcases hb with rfl | rfl <;> exact ⟨by decide, by decide⟩⟩
+example : AltDesc (.cds ⟨.minus, [((3, 5), 0), ((7, 10), 2)]⟩) altChunk := ⟨Or.inr rfl, altBlocks_example⟩
+-- a coding transcript with that exon structure and a one-block CDS [7,9) on the same chunk
+example : AltDesc (.tx ⟨.minus, [(3, 5), (7, 10)], [((7, 9), 0)]⟩) altChunk := by
+  refine ⟨Or.inr rfl, altBlocks_example, fun _ => ⟨⟨by simp, by simp [Chunk.Sep], ?_⟩, ?_⟩⟩
+  · intro b hb
+    simp only [List.map_cons, List.map_nil, List.mem_cons, List.not_mem_nil, or_false] at hb
+    subst hb; exact ⟨by decide, by decide⟩
+  · cases h : mkChunkCDS (TxD.cdsD ⟨.minus, [(3, 5), (7, 10)], [((7, 9), 0)]⟩) altChunk with
+    | ok k => exact ⟨k, rfl⟩
+    | error e =>
+      have : (ans (mkChunkCDS (TxD.cdsD ⟨.minus, [(3, 5), (7, 10)], [((7, 9), 0)]⟩) altChunk)).isSome = true := by
+        decide +kernel
+      rw [h] at this; simp [ans] at this
+-- a feature on a plus-strand chunk
+example : AltDesc (.feat ⟨.minus, [(3, 5), (7, 10)]⟩) ⟨(2, 12), .plus, "ACGTACGTAC".toList⟩ :=
+  ⟨Or.inr rfl, ⟨by simp, by simp [Chunk.Sep], by
+    intro b hb
+    simp only [List.mem_cons, List.not_mem_nil, or_false] at hb
+    rcases hb with rfl | rfl <;> exact ⟨by decide, by decide⟩⟩, rfl⟩
+-- a gene built on the whole chromosome exists, and has no bounds to worry about (hypotheses of the from_dict theorems)
+example : (ans (buildNodes (.gene ⟨[⟨.plus, [(1, 10)], []⟩]⟩) (.whole "ACGTACGTACGTAC".toList))).isSome = true := by
+  decide +kernel
+
+/-- F-C07e: `FeatureInterval.from_chunk_relative_location` on a chunk of the MINUS strand: the feature [3,8) + comes
+    back on the minus strand of the chromosome (the modelled code passes the chunk-relative strand on) -/
+example : ans (descFromChunkRelative (.feat ⟨.plus, [(3, 8)]⟩) ⟨(2, 10), .minus, "ACGTACGT".toList⟩) =
+    some (.feat ⟨.minus, [(3, 8)]⟩) := by decide +kernel
+-- … while the CDS constructor of the same name keeps the chromosome strand
+example : ans (descFromChunkRelative (.cds ⟨.plus, [((3, 8), 0)]⟩) ⟨(2, 10), .minus, "ACGTACGT".toList⟩) =
+    some (.cds ⟨.plus, [((3, 8), 0)]⟩) := by decide +kernel
+/-- touching blocks are merged by the lift back to the chromosome (why `Sep` is asked for): exons [3,5) [5,8) -/
+example : ans (descFromChunkRelative (.feat ⟨.plus, [(3, 8)]⟩) ⟨(2, 10), .plus, "ACGTACGT".toList⟩) =
+    some (.feat ⟨.plus, [(3, 8)]⟩) := by decide +kernel
+
 /-! ### stated, not proved (these clauses rest on the correspondence run of harness/props/c07.py)
 
   Sequences: for a chunk whose letters are the chromosome letters of the window (reverse-complemented on −),
@@ -269,6 +395,17 @@ example : (ans (mkWholeCDS ⟨.minus, [((2, 7), 1)]⟩ "ACGTACGT".toList)).isSom
     and `a.map nodeView = b.map nodeView` for gene / feature collection / annotation collection.  The leaf cases are
     the theorems above; the span of a collection is min / max over the `start` / `end` of its children (parent
     independent by T1); the composition over the pre-order listing is not written out.
+
+  Query order: that the REAL object gives the same answers whichever view is asked first is decided on every run by
+    `okOrder` (Spec/Chunk.lean) on the `order` lines (both recordings) and by the usual predicates on `@k` / `@c` lines.
+    The one place where the library's control flow depends on the history — `extract_sequence` joins the cached chunk
+    codons when `chunk_relative_codon_locations` was evaluated before — is mirrored by
+    `extractSequenceChunkAfterCodons`; that both paths give the same letters is compared, not proved.
+
+  Alternative constructors: `okAltCtor d win (flags of viaNodes … against buildNodes d (.chunk ch))` for `via:snv`
+    (`descIncorporateSnv`, modelled incl. F-C07f / F-C07g; on a plus-strand chunk and one reading frame it re-creates
+    the description — compared on every run, the proof needs the Python type of the lifted-back location) and the
+    identifier copy of `from_dict` (`copyGuids`).
 
   Identifier flags: `guidFlags a b` is all-true for feature, CDS and transcript nodes (their `guidKey` is part of
     `nodeView`); for collections it is false exactly when the chunk-relative location differs (F-C07a, witness below).
